@@ -258,7 +258,10 @@ def write(detector, spec, salt=0, spec_odd=None, track=False):
             if nwl:
                 wl = WAVELENGTHS[:nwl]
                 cube = np.stack([v + 1000 * k for k in range(nwl)]).astype(dt)
-                detector.photon.array_3d = xr.DataArray(cube, dims=["wavelength", "y", "x"], coords={"wavelength": wl})
+                coords = {"wavelength": wl}
+                if opt.get("xy"):        # e.g. pixel centres in um: the result must still be indexed by row / column
+                    coords.update(y=[5.0 + 10.0 * i for i in range(shape[0])], x=[2.5 + 5.0 * i for i in range(shape[1])])
+                detector.photon.array_3d = xr.DataArray(cube, dims=["wavelength", "y", "x"], coords=coords)
             else:
                 detector.photon.array = v.astype(dt)
         elif b == "charge":
@@ -286,6 +289,8 @@ def write(detector, spec, salt=0, spec_odd=None, track=False):
         elif b == "pixel":
             v = value_for("pixel", st, shape, salt) * mul
             dt = opt.get("dtype", "float64")
+            if opt.get("inf"):
+                v[-1, -1] = np.inf
             if opt.get("acc"):
                 old = container_value(detector.pixel)         # robust against an uninitialised pixel bucket
                 base = np.zeros(shape) if old is None else np.asarray(old, dtype="float64")
